@@ -357,9 +357,9 @@ def materialise(v: Any) -> Any:
     if dataclasses.is_dataclass(v) and not isinstance(v, type):
         if hasattr(v, "_vf_id"):
             return ("o", type(v).__name__, v._vf_id)
-        return ("d", tuple((f.name, materialise(getattr(v, f.name))) for f in dataclasses.fields(v)))
+        return ("d", tuple((f.name, materialise(getattr(v, f.name))) for f in dataclasses.fields(v) if type(getattr(v, f.name)).__name__ != "_Omitted"))
     if isinstance(v, tuple) and hasattr(v, "_fields"):
-        return ("d", tuple((k, materialise(x)) for k, x in zip(v._fields, v)))
+        return ("d", tuple((k, materialise(x)) for k, x in zip(v._fields, v) if type(x).__name__ != "_Omitted"))
     if isinstance(v, tuple):
         return ("t", tuple(materialise(x) for x in v))
     if isinstance(v, list):
